@@ -470,6 +470,10 @@ class AirTouchSocket(Generic[comms.Hdr]):
             _LOGGER.debug("write: Socket error %s while sending %s", ex, entry.message)
             if entry.retries_remaining == 0:
                 self._log_dropped_message(entry, "max-retries")
+            elif not self.is_open:
+                # The socket was closed while this message was being written.
+                # It must not be carried over into a later session.
+                self._log_dropped_message(entry, "closed")
             else:
                 # Return this message to the head of the queue for a retry
                 self._message_queue.appendleft(
